@@ -71,7 +71,7 @@ TOL_H = {
     'backward|k8+|user': 0.01, 'central2|k1|user': None, 'central2|k2-3|user': None,
     'central2|k4-7|user': None, 'central2|k8+|default': 1e-06, 'central2|k8+|user': 0.01,
     'central|k1|user': None, 'central|k2-3|user': None, 'central|k4-7|user': None,
-    'central|k8+|default': 0.001, 'central|k8+|user': 0.01, 'complex|k1|default': 0.1,
+    'central|k8+|default': 0.001, 'central|k8+|user': 0.01, 'complex|k1|default': None,
     'complex|k1|user': None, 'complex|k2-3|user': None, 'complex|k4-7|user': None, 'complex|k8+|user': 0.01,
     'forward|k2-3|user': None, 'forward|k4-7|user': None, 'forward|k8+|default': 0.001,
     'forward|k8+|user': 0.01, 'multicomplex|k1|default': 1e-06, 'multicomplex|k1|user': None,
@@ -82,7 +82,7 @@ TOL_HD = {
     'backward|k8+|default': 0.001, 'backward|k8+|user': 0.01, 'central2|k1|user': None,
     'central2|k2-3|user': None, 'central2|k4-7|user': None, 'central2|k8+|default': 1e-06,
     'central2|k8+|user': 0.01, 'central|k1|user': None, 'central|k2-3|user': None, 'central|k4-7|user': None,
-    'central|k8+|default': 1e-06, 'central|k8+|user': 0.01, 'complex|k1|default': 0.1,
+    'central|k8+|default': 1e-06, 'central|k8+|user': 0.01, 'complex|k1|default': None,
     'complex|k1|user': None, 'complex|k2-3|user': None, 'complex|k4-7|user': None, 'complex|k8+|user': 0.01,
     'forward|k1|user': None, 'forward|k2-3|user': None, 'forward|k4-7|user': None,
     'forward|k8+|default': 0.001, 'forward|k8+|user': 0.1, 'multicomplex|k1|default': 1e-06,
